@@ -91,6 +91,13 @@ def delivers(prog: Program, cls, pname: str, depth: int = 0) -> bool:
     return False
 
 
+def _param_sources(init, st: ast.Assign) -> Set[str]:
+    """Constructor parameters the stored value is computed from (through local temporaries)."""
+    from ..dataflow import value_sources
+    srcs, _stmts = value_sources(init, st.value, st)
+    return set(srcs) & set(init.params)
+
+
 def run(ck: Checker, prog: Program, tier: str):
     eng = engine(prog)
     classes = _settings_classes(prog)
@@ -129,7 +136,7 @@ def run(ck: Checker, prog: Program, tier: str):
             ok_fwd = p in fwd and isinstance(fwd[p], ast.Name) and fwd[p].id == p
             ok_store = False
             if p in stored:
-                srcs = names_loaded(stored[p].value) & set(init.params)
+                srcs = _param_sources(init, stored[p])
                 ok_store = srcs == {p}
             if ok_fwd or ok_store:
                 ck.ok("C15.R2", init.qualname, f"parameter {p}", nontrivial=True,
@@ -145,7 +152,7 @@ def run(ck: Checker, prog: Program, tier: str):
                              + (f" ({'; '.join(why)})" if why else " (dropped)"), loc=init.loc())
         # stores must be named after their own parameter
         for name, st in stored.items():
-            srcs = names_loaded(st.value) & set(init.params)
+            srcs = _param_sources(init, st)
             if name not in params or srcs - {name}:
                 ck.violation("C15.R2", init.qualname, norm_key(st, 80),
                              f"attribute `{name}` is stored from {sorted(srcs) or 'no parameter'}", loc=init.loc(st))
